@@ -118,6 +118,33 @@ func Solve(o *Obligation, outDir string, timeoutS int, all bool) *Verdict {
 	_ = os.WriteFile(fname, []byte(script), 0o644)
 	v := &Verdict{Ob: o, SMTPath: fname, SMTBytes: len(script)}
 	v.Watch = o.Watch
+	// first attempt: the slice of the context connected to the goal (valid for unsat answers only)
+	if !o.ExpectSat && !all {
+		sliced := o.sc.RenderSliced(o.Mark, extra, 3)
+		sname := filepath.Join(outDir, sanitizeFile(o.Name)+".sliced.smt2")
+		_ = os.WriteFile(sname, []byte(sliced), 0o644)
+		sctx, scancel := context.WithCancel(context.Background())
+		sch := make(chan SolverRun, len(solvers))
+		for _, sd := range solvers {
+			go func(sd solverDef) { sch <- runSolver(sctx, sd, sname, 4) }(sd)
+		}
+		done := false
+		for range solvers {
+			r := <-sch
+			if r.Result == "unsat" && !done {
+				done = true
+				r.Solver += " (sliced context)"
+				v.Runs = append(v.Runs, r)
+				v.Status, v.Solver, v.Ms = "discharged", r.Solver, r.Ms
+				v.SMTPath, v.SMTBytes = sname, len(sliced)
+				scancel()
+			}
+		}
+		scancel()
+		if done {
+			return v
+		}
+	}
 	ctx, cancel := context.WithCancel(context.Background())
 	defer cancel()
 	ch := make(chan SolverRun, len(solvers))
@@ -144,7 +171,16 @@ func Solve(o *Obligation, outDir string, timeoutS int, all bool) *Verdict {
 			break
 		}
 	}
+	allErr := len(v.Runs) > 0
+	for _, r := range v.Runs {
+		if r.Result != "error" {
+			allErr = false
+		}
+	}
 	switch {
+	case allErr:
+		// every solver rejected the script: a malformed query is an engine bug, never a verdict
+		v.Status = "engine-error"
 	case sat != nil && unsat != nil:
 		v.Status = "engine-error"
 	case o.ExpectSat:
